@@ -34,7 +34,7 @@ PROPS = {
     'C11': dict(units=['diag', 'state_analyzer', 'state_analyzer@small', 'glue', 'dfadiag', 'charnames'],
                 claim='write_state_diag_str prints for every term column exactly one action line of the kind the table entry has, with the rule number / target state of that entry (including the losing reduction of a resolved S/R conflict); the RULES list numbers rules as the action lines do; all name/rule/symbol indices in bounds; add_situation files an item under the symbol after its dot',
                 assumptions=['that the item sets and conflict flags in the table are the true LR(1) ones is C01 (transitions/closure not under contract)', 'text formatting is lowered to events (R10)', 'DFA dump: f_range (a run of bytes is shown with its target, the ghost-chosen byte exactly when it is in the run) and the per-automaton loop (one line per state, in order) are under contract; the per-state writer write_dfa_state_diag_str is NOT (job does not finish): its contract is assumed where the loop uses it']),
-    'C12': dict(units=['dfa', 'driver', 'stdex', 'state_analyzer', 'cvec_iter', 'glue'],
+    'C12': dict(units=['dfa', 'driver', 'stdex', 'state_analyzer', 'cvec_iter', 'glue', 'state_analyzer@small'],
                 claim='dfa_size_analyzer arithmetic (prim/add/rep: {0} keeps the slice, {n} adds n-1 copies) under an explicit no-wrap precondition; cvector preconditions (size < N) as call-site obligations; stack/capacity of the driver; add_situation capacity preconditions',
                 assumptions=['analyser vs builder lock-step over the same parse is not mechanised; the builder (rep/cat/alt/...) is not under contract', 'sufficiency of the default table caps is a counting (pigeonhole) argument, not mechanised',
                              'nothing in the header establishes the no-wrap precondition of dfa_size_analyzer::rep (finding D12)']),
